@@ -94,3 +94,113 @@ impl ContainerParser {
         self.previous_consumed_bytes
     }
 }
+
+/// Verification hooks (`--cfg jxl_oxide_verif`): construct a parser in an arbitrary state arm and
+/// read the state back, so that a harness can execute exactly one parser step from each arm.
+#[cfg(jxl_oxide_verif)]
+pub mod verif {
+    use super::*;
+
+    /// Flat mirror of the private parser state.
+    #[derive(Debug, Copy, Clone, PartialEq, Eq)]
+    pub struct State {
+        /// 0 = WaitingSignature, 1 = WaitingBoxHeader, 2 = WaitingJxlpIndex, 3 = InAuxBox,
+        /// 4 = InCodestream
+        pub arm: u8,
+        pub box_type: [u8; 4],
+        pub box_size: Option<u64>,
+        pub brotli_box_type: Option<[u8; 4]>,
+        pub bytes_left: Option<usize>,
+        pub kind: BitstreamKind,
+        pub pending_no_more_aux_box: bool,
+        /// 0 = Initial, 1 = SingleJxlc, 2 = Jxlp(index), 3 = JxlpFinished
+        pub jxlp_state: u8,
+        pub jxlp_index: u32,
+    }
+
+    impl ContainerParser {
+        pub fn verif_with_state(s: &State) -> Self {
+            let header = ContainerBoxHeader::verif_new(ContainerBoxType(s.box_type), s.box_size);
+            let state = match s.arm {
+                0 => DetectState::WaitingSignature,
+                1 => DetectState::WaitingBoxHeader,
+                2 => DetectState::WaitingJxlpIndex(header),
+                3 => DetectState::InAuxBox {
+                    header,
+                    brotli_box_type: s.brotli_box_type.map(ContainerBoxType),
+                    bytes_left: s.bytes_left,
+                },
+                _ => DetectState::InCodestream {
+                    kind: s.kind,
+                    bytes_left: s.bytes_left,
+                    pending_no_more_aux_box: s.pending_no_more_aux_box,
+                },
+            };
+            let jxlp_index_state = match s.jxlp_state {
+                0 => JxlpIndexState::Initial,
+                1 => JxlpIndexState::SingleJxlc,
+                2 => JxlpIndexState::Jxlp(s.jxlp_index),
+                _ => JxlpIndexState::JxlpFinished,
+            };
+            Self {
+                state,
+                jxlp_index_state,
+                previous_consumed_bytes: 0,
+            }
+        }
+
+        pub fn verif_state(&self) -> State {
+            let mut out = State {
+                arm: 0,
+                box_type: [0; 4],
+                box_size: None,
+                brotli_box_type: None,
+                bytes_left: None,
+                kind: BitstreamKind::Unknown,
+                pending_no_more_aux_box: false,
+                jxlp_state: 0,
+                jxlp_index: 0,
+            };
+            match &self.state {
+                DetectState::WaitingSignature => out.arm = 0,
+                DetectState::WaitingBoxHeader => out.arm = 1,
+                DetectState::WaitingJxlpIndex(header) => {
+                    out.arm = 2;
+                    out.box_type = header.box_type().0;
+                    out.box_size = header.box_size();
+                }
+                DetectState::InAuxBox {
+                    header,
+                    brotli_box_type,
+                    bytes_left,
+                } => {
+                    out.arm = 3;
+                    out.box_type = header.box_type().0;
+                    out.box_size = header.box_size();
+                    out.brotli_box_type = brotli_box_type.map(|x| x.0);
+                    out.bytes_left = *bytes_left;
+                }
+                DetectState::InCodestream {
+                    kind,
+                    bytes_left,
+                    pending_no_more_aux_box,
+                } => {
+                    out.arm = 4;
+                    out.kind = *kind;
+                    out.bytes_left = *bytes_left;
+                    out.pending_no_more_aux_box = *pending_no_more_aux_box;
+                }
+            }
+            match self.jxlp_index_state {
+                JxlpIndexState::Initial => out.jxlp_state = 0,
+                JxlpIndexState::SingleJxlc => out.jxlp_state = 1,
+                JxlpIndexState::Jxlp(i) => {
+                    out.jxlp_state = 2;
+                    out.jxlp_index = i;
+                }
+                JxlpIndexState::JxlpFinished => out.jxlp_state = 3,
+            }
+            out
+        }
+    }
+}
